@@ -16,19 +16,37 @@ from pipes import Instantiator, export_frame
 BACKENDS = ("polars", "sqlite")
 
 CASE_HEADER = """From Coq Require Import List String Ascii NArith ZArith Bool PrimFloat.
-From PDT Require Import Model.Dtype Model.Value Model.Ops Model.Expr Model.RefSem.
+From PDT Require Import Model.Dtype Model.Value Model.Ops Model.Expr Model.RefSem Model.Typing Model.Cache Proofs.CacheLemmas.
 From PDTGen Require Import Catalogue.
 Import ListNotations.
 Open Scope string_scope.
 Definition code (v : verdict) : nat :=
   match v with VOk => 0 | VNames => 1 | VRows => 2 | VOutOfDomain => 3 end.
+Definition child_of (a : ast) : option ast :=
+  match a with
+  | Select c _ | Rename c _ | Mutate c _ | Filter c _ | Arrange c _ | SliceHead c _ _ | GroupBy c _ _
+  | Ungroup c | Summarize c _ | Alias c _ | SubqueryMarker c => Some c
+  | _ => None
+  end.
+(* does the model's requires_subquery agree with the real decision for verb [v] on child [c]? *)
+Definition step_agrees (is_polars : bool) (sch : schema) (c v : ast) (real : bool) : bool :=
+  match cache_of_ast sch c with
+  | TOk cc => Bool.eqb (match requires_subquery is_polars cc v false with Some _ => true | None => false end) real
+  | TErr _ => false
+  end.
 """
+STEP_PATTERN = "(Select c _ | Rename c _ | Mutate c _ | Filter c _ | Arrange c _ | SliceHead c _ _ | GroupBy c _ _ | Ungroup c | Summarize c _ | Alias c _) as v"
+
+
+WF = {}      # (case index, backend) -> 1 when the AST satisfies Proofs/CacheLemmas.wf
+L2 = {}      # (case index, backend) -> (cache_diff code, subquery-decision mismatch) of the last eval_cases
 
 
 class Obs:
     """Observation of one case on one backend."""
     __slots__ = ("backend", "exc", "exc_msg", "exc_at", "columns", "names", "rows", "dtypes",
-                 "ast_coq", "export_exc", "export_exc_msg", "ser_error", "n_markers", "meta")
+                 "ast_coq", "export_exc", "export_exc_msg", "ser_error", "n_markers", "meta",
+                 "cache_coq", "schema_coq", "steps_coq")
 
     def __init__(self, backend):
         self.backend = backend
@@ -39,18 +57,29 @@ class Obs:
         self.ser_error = None
         self.n_markers = 0
         self.meta = None
+        self.cache_coq = self.schema_coq = None
+        self.steps_coq = []      # [(prev ast, verb node on prev ast, real decision)] for the subquery L2
 
     def to_json(self):
-        return {k: getattr(self, k) for k in self.__slots__ if k != "ast_coq"}
+        return {k: getattr(self, k) for k in self.__slots__
+                if k not in ("ast_coq", "cache_coq", "schema_coq", "steps_coq")}
 
 
-def observe(case, backend) -> Obs:
+def observe(case, backend, l2_steps=False) -> Obs:
     from pydiverse.transform import extended as X
     o = Obs(backend)
+    if l2_steps:
+        import pipes
+        pipes.patch_requires_subquery()
     inst = Instantiator(case, backend, {})
     out = inst.run()
     if out.exc is not None:
         o.exc, o.exc_msg, o.exc_at = out.exc, out.exc_msg, list(out.exc_at)
+        if l2_steps and out.exc == "SubqueryError":
+            try:
+                o.steps_coq = step_decisions(case, out)
+            except Exception as ex:  # noqa: BLE001
+                o.ser_error = f"steps: {type(ex).__name__}: {ex}"
         return o
     tbl = out.table
     try:
@@ -84,13 +113,46 @@ def observe(case, backend) -> Obs:
         um = ser.UidMap()
         o.ast_coq = ser.ast_to_coq(tbl._ast, um, out.sources)
         o.n_markers = o.ast_coq.count("SubqueryMarker")
+        o.cache_coq = ser.cache_to_coq(tbl._cache, um)
+        o.schema_coq = ser.schema_to_coq(ser.ast_sources(tbl._ast, []), um)
     except (ser.SerError, Exception) as ex:  # noqa: BLE001
         o.ser_error = f"{type(ex).__name__}: {ex}"
+    if l2_steps and o.ser_error is None:
+        try:
+            o.steps_coq = step_decisions(case, out)
+        except Exception as ex:  # noqa: BLE001
+            o.ser_error = f"steps: {type(ex).__name__}: {ex}"
     return o
 
 
-def observe_all(cases, backends=BACKENDS):
-    return [{b: observe(c, b) for b in backends} for c in cases]
+def step_decisions(case, out):
+    """For every non-join step of the main pipe (also the one that raised SubqueryError): the AST
+    before the step, the verb node as it was first tested, and what the real
+    Cache.requires_subquery answered (recorded by pipes.patch_requires_subquery)."""
+    import copy
+    pid = case["pipe"]["id"]
+    res = []
+    for k, st in enumerate(case["pipe"]["steps"], 1):
+        key = f"{pid}@{k}"
+        if key not in out.decisions or f"{pid}@{k - 1}" not in out.points:
+            continue
+        if st[0] in ("join", "union", "collect"):
+            continue
+        node, reason = out.decisions[key]
+        prev = out.points[f"{pid}@{k - 1}"]
+        if st[0] == "drop":
+            continue
+        nd2 = copy.copy(node)
+        nd2.child = prev._ast
+        um = ser.UidMap()
+        a = ser.ast_to_coq(nd2, um, out.sources)
+        sch = ser.schema_to_coq(ser.ast_sources(nd2, []), um)
+        res.append((a, sch, reason is not None))
+    return res
+
+
+def observe_all(cases, backends=BACKENDS, l2_steps=False):
+    return [{b: observe(c, b, l2_steps) for b in backends} for c in cases]
 
 
 def case_block(i, case, obs: dict, backends=BACKENDS) -> tuple[str, list]:
@@ -99,10 +161,17 @@ def case_block(i, case, obs: dict, backends=BACKENDS) -> tuple[str, list]:
     slots = []
     for bi, b in enumerate(backends):
         o = obs[b]
-        if o.ast_coq is None or o.names is None:
+        if (o.ast_coq is None or o.names is None) and not o.steps_coq:
             continue
-        txt.append(f"Definition ast{i}_{bi} : ast := {o.ast_coq}.")
-        txt.append(f"Definition obs{i}_{bi} : frame := {ser.frame_to_coq(o.names, o.rows)}.")
+        if o.ast_coq is not None and o.names is not None:
+            txt.append(f"Definition ast{i}_{bi} : ast := {o.ast_coq}.")
+            txt.append(f"Definition obs{i}_{bi} : frame := {ser.frame_to_coq(o.names, o.rows)}.")
+            txt.append(f"Definition sch{i}_{bi} : schema := {o.schema_coq}.")
+            txt.append(f"Definition cch{i}_{bi} : cache := {o.cache_coq}.")
+        for j, (a, sch, real) in enumerate(o.steps_coq):
+            txt.append(f"Definition stp{i}_{bi}_{j} : bool := "
+                       f"match {a} with\n  | {STEP_PATTERN} => step_agrees {'true' if b == 'polars' else 'false'} "
+                       f"{sch} c v {'true' if real else 'false'}\n  | _ => false end.")
         slots.append((i * len(backends) + bi, i, bi))
     return "\n".join(txt) + "\n", slots
 
@@ -121,7 +190,15 @@ def eval_cases(name, cases, observations, backends=BACKENDS, shard=150):
                 continue
             txt.append(block)
             for slot, ci, bi in slots:
-                entries.append(f"({slot}, code (check_case db{ci} ast{ci}_{bi} false obs{ci}_{bi}))")
+                ob = observations[ci][backends[bi]]
+                nst = len(ob.steps_coq)
+                stp = " && ".join([f"stp{ci}_{bi}_{j}" for j in range(nst)] or ["true"])
+                if ob.ast_coq is not None and ob.names is not None:
+                    entries.append(f"({slot}, code (check_case db{ci} ast{ci}_{bi} false obs{ci}_{bi}), "
+                                   f"cache_diff (cache_of_ast sch{ci}_{bi} ast{ci}_{bi}) cch{ci}_{bi}, "
+                                   f"(if {stp} then 0 else 1), (if wf sch{ci}_{bi} ast{ci}_{bi} then 1 else 0))")
+                else:       # the pipeline was refused: only the subquery decisions are compared
+                    entries.append(f"({slot}, 7, 0, (if {stp} then 0 else 1), 0)")
         if not entries:
             continue
         txt.append("Eval vm_compute in [" + ";\n ".join(entries) + "]%nat.\n")
@@ -133,15 +210,20 @@ def eval_cases(name, cases, observations, backends=BACKENDS, shard=150):
         return subprocess.run(["bash", "-c", f"ulimit -s unlimited; timeout 900 coqc {' '.join(common.COQ_ARGS)} {f}"],
                               capture_output=True, text=True, cwd=common.COQ)
     verdicts, errors = {}, []
+    L2.clear()
+    WF.clear()
     with ThreadPoolExecutor(common.NPROC) as ex:
         for f, p in zip(files, ex.map(go, files)):
             if p.returncode != 0:
                 errors.append(f"{f.name}: {(p.stderr or p.stdout)[-1500:]}")
                 continue
             flat = re.sub(r"%nat|\s", "", p.stdout)
-            for m in re.finditer(r"\((\d+),(\d+)\)", flat):
-                slot, code = int(m.group(1)), int(m.group(2))
-                verdicts[(slot // len(backends), backends[slot % len(backends)])] = code
+            for m in re.finditer(r"\((\d+),(\d+),(\d+),(\d+),(\d+)\)", flat):
+                slot, code, cdiff, sdiff, wfok = (int(m.group(k)) for k in (1, 2, 3, 4, 5))
+                key = (slot // len(backends), backends[slot % len(backends)])
+                verdicts[key] = code
+                L2[key] = (cdiff, sdiff)
+                WF[key] = wfok
     return verdicts, errors
 
 
